@@ -39,6 +39,7 @@ RESTART_OK = {
 def check(run, prog, tier):
     run.rule("C09-a", "backend(): no raising call before setjmp arms the loop context; the statements re-executed after every recovery are only restore_context or once-guarded start-up steps", 3)
     run.rule("C09-b", "every subscript of the global connection table all_users is guarded by a non-NULL test, an index bound by max_users (0 while NULL), an existing connection record, or a reviewed table entry", 30)
+    run.rule("C09-d", "fault locality (shared with C11-a): on every uncaught path error_handler switches off the failing heart beat before it jumps; only the catch path and the in_error exit leave earlier", 4)
     run.rule("C09-e", "tasks run in a loop under one error context either re-arm the recovery point per task (call_out) or restart safely (table)", 5)
 
     cg = callgraph.CallGraph(prog)
@@ -175,6 +176,10 @@ def check(run, prog, tier):
             else:
                 run.ob("C09-e", inst, False, "%s runs LPC code in a loop whose recovery point is armed outside the loop (cycle %s avoids setjmp): after an error the loop is re-entered from the setjmp with its per-task bookkeeping half done" % (fn, p),
                        f.file, n.get("l"), f.name, what="%s: one recovery point for many tasks; an error in one task disturbs the others" % f.name)
+
+    # ---- C09-d
+    from rules import C11
+    C11.fault_locality(run, prog, "C09-d")
 
     # ---- C09-c stale connection records
     from rules import C09c
